@@ -69,6 +69,7 @@ type FuncContract struct {
 	Lemmas         []Clause // assert-style lemmas proved at function entry under requires
 	AtCalls        []AtCall // assertions attached to call sites of the body
 	NoNilCheck     bool     // nil-dereference obligations are assumed instead of proved (reported)
+	AnchorsOnly    bool     // only at-call assertions and postconditions are proved; safety checks and callee preconditions are assumed (reported)
 	DynNoEffect    bool     // calls through function values are assumed not to touch modelled memory (reported)
 	Witness        []string
 	File           string
@@ -388,6 +389,9 @@ func (cs *ContractSet) LoadContractFile(path, pkgPath string) error {
 		case "checkasserts":
 			cur.CheckAsserts = true
 		case "nonilcheck":
+			cur.NoNilCheck = true
+		case "anchorsonly":
+			cur.AnchorsOnly = true
 			cur.NoNilCheck = true
 		case "dyncalls":
 			if rest != "noeffect" {
